@@ -38,6 +38,11 @@ prop("C16", "E-SEQ + E-STATE + E-GEN",
      "Every error returned by any call of the bundle on any enumerated input must carry a numeric code, must not be a Go runtime error, internal-failure code or struct/address dump, must render without panicking, and when positioned must have its index inside the file it names, line/column equal to an independent reference and must quote that line.",
      "Line/column compared only for single-convention texts and indices not on a terminator byte; only code 1 and wrapped runtime errors count as 'internal failure'.")
 
+prop("C17", "E-SEQ + E-STATE + E-GEN",
+     "bounded exhaustive enum-rule texts + explicit-state search of the enum scanner + exhaustive lists x layouts x example values (rule file vs inline differential)",
+     "Acceptance of every string of <=5 (thorough 6) tokens over a 17-token comment-free alphabet and of every reachable enum-scanner state x byte class is compared with an encoding/json-based reference (list of distinct scalars, no exponents), Values() is compared entry by entry, and for every list of <=3 entries over 17 scalars x 5 annotation/comment layouts x 17 example values the schema using `enum: @e` must have the verdict and example of the schema with the list inline.",
+     "Annotation syntax is judged through the five generated layouts only; strings are ASCII plus one \\u escape spelling.")
+
 ORDER = ["C%02d" % i for i in range(1, 21)]
 
 def main():
